@@ -2,7 +2,7 @@
 // LogServer::serve / process, LogServerClient::connect, CommandTask::run's stream selection are not under a Verus contract.
 // C20: after its stream header a listener prints header-introduced blocks only; per (stream, target, command) the blocks reassemble
 // to that task's output (newline-terminated text), and blocks appear only for what the listener's filters admit.
-// BOUND: 3 targets x 2 commands x 2 streams writing concurrently (40..120 lines each, with pauses; one stream with CR LF line ends), 8 filter combinations.
+// BOUND: 3 targets x 2 commands x 2 streams writing concurrently (40..120 lines each, with pauses; one stream with CR LF line ends, one with a 200 KB line), 8 filter combinations.
 use std::io::Read;
 use std::os::unix::fs::PermissionsExt;
 use std::process::{Command, Stdio};
@@ -23,7 +23,9 @@ fn expected(target: &str, cmd: &str, stream: &str) -> String {
     let n = 40 + 40 * (target.as_bytes()[1] - b'1') as usize;
     let head = if stream == "stdout" && target == "t1" { format!("{}-{}-stdout begin ... end\n", target, cmd) }
         // newline-terminated text whose lines end in CR LF (what `curl -i` prints): the carriage returns are part of the output
-        else if stream == "stdout" && target == "t3" && cmd == "other" { "HTTP/1.1 200 OK\r\nServer: x\r\n\r\n".to_string() } else { String::new() };
+        else if stream == "stdout" && target == "t3" && cmd == "other" { "HTTP/1.1 200 OK\r\nServer: x\r\n\r\n".to_string() }
+        // one newline-terminated line far longer than any buffer on the way (a minified bundle, a base64 blob)
+        else if stream == "stdout" && target == "t2" && cmd == "emit" { "L".repeat(200_000) + "\n" } else { String::new() };
     head + &(0..n).map(|i| format!("{}-{}-{} line {} {}\n", target, cmd, stream, i, "x".repeat(i % 37))).collect::<String>()
 }
 fn strip_color(s: &str) -> String {
@@ -46,6 +48,9 @@ fn run_combo(root: &std::path::Path, seq: u64, so: bool, se: bool, ft: &[&str], 
         if !ft.is_empty() { a.push("-t".into()); a.extend(ft.iter().map(|s| s.to_string())); }
         if !fc.is_empty() { a.push("-c".into()); a.extend(fc.iter().map(|s| s.to_string())); }
         let mut tail = Command::new(BIN).current_dir(root).args(&a).stdout(Stdio::piped()).stderr(Stdio::null()).spawn().unwrap();
+        // what the listener prints is drained while it runs (a full pipe would stall the listener, and a stalled listener stalls the run)
+        let mut tail_out = tail.stdout.take().unwrap();
+        let drain = std::thread::spawn(move || { let mut b = Vec::new(); let _ = tail_out.read_to_end(&mut b); b });
         // wait until the listener is bound - WITHOUT connecting to it: `log tail` serves one client at a time and gives up when a client
         // goes away during the handshake, so a probe connection could end the listener before the run connects
         let t0 = std::time::Instant::now();
@@ -54,9 +59,8 @@ fn run_combo(root: &std::path::Path, seq: u64, so: bool, se: bool, ft: &[&str], 
         let run = Command::new(BIN).current_dir(root).arg("-f").arg(&cfg).args(["run", "-c", "emit", "other", "-t", "t1", "t2", "t3"]).output().unwrap();
         std::thread::sleep(std::time::Duration::from_millis(400));
         let _ = tail.kill();
-        let mut out = String::new();
-        let _ = tail.stdout.take().unwrap().read_to_string(&mut out);
         let _ = tail.wait();
+        let out = String::from_utf8_lossy(&drain.join().unwrap_or_default()).into_owned();
         if !run.status.success() { return Some(format!("the run itself failed: {}", String::from_utf8_lossy(&run.stdout).chars().take(200).collect::<String>().replace('\n', " "))); }
         // parse: block headers set the current (stream, target, command); other lines belong to it
         let mut got: std::collections::BTreeMap<(String, String, String), String> = Default::default();
@@ -104,6 +108,7 @@ fn vf_log_tail_blocks() {
         let n = 40 + 40 * (t.as_bytes()[1] - b'1') as usize;
         // both streams written in interleaved bursts with pauses (several flush ticks apart)
         let slow = if t == "t1" { format!("printf '{t}-{c}-stdout begin ...'; sleep 0.8; echo ' end'\n", t = t, c = c) }
+            else if t == "t2" && c == "emit" { "head -c 200000 /dev/zero | tr '\\0' 'L'; echo\n".to_string() }
             else if t == "t3" && c == "other" { "printf 'HTTP/1.1 200 OK\\r\\nServer: x\\r\\n\\r\\n'\n".to_string() } else { String::new() };
         let body = format!("#!/bin/bash\npad() {{ printf 'x%.0s' $(seq 1 $1); }}\n{slow}for i in $(seq 0 {}); do p=$(( i % 37 )); s=\"\"; if [ $p -gt 0 ]; then s=$(pad $p); fi; echo \"{t}-{c}-stdout line $i $s\"; echo \"{t}-{c}-stderr line $i $s\" 1>&2; if [ $(( i % 25 )) -eq 24 ]; then sleep 0.3; fi; done\n", n - 1, t = t, c = c, slow = slow);
         std::fs::write(&p, body).unwrap();
